@@ -136,13 +136,16 @@ type Alias struct {
 }
 
 type Param struct {
-	GoName   string `json:"go"`
-	Type     T      `json:"type"`
-	In       string `json:"in"` // path | query | header | form | body | ctx
-	Wire     string `json:"wire,omitempty"`
-	Validate string `json:"validate,omitempty"`
-	Descr    string `json:"descr,omitempty"`
-	AnnName  string `json:"ann_name,omitempty"` // value written in the annotation when it differs from GoName (perturbations)
+	// BreakBefore starts a new source line before this parameter (multi-line signatures / grouped fields
+	// that span lines); position marks of such methods only cover what precedes the first break
+	BreakBefore bool   `json:"break_before,omitempty"`
+	GoName      string `json:"go"`
+	Type        T      `json:"type"`
+	In          string `json:"in"` // path | query | header | form | body | ctx
+	Wire        string `json:"wire,omitempty"`
+	Validate    string `json:"validate,omitempty"`
+	Descr       string `json:"descr,omitempty"`
+	AnnName     string `json:"ann_name,omitempty"` // value written in the annotation when it differs from GoName (perturbations)
 }
 
 func (p Param) AnnValue() string {
